@@ -149,6 +149,11 @@ def custom_templates(rng, mn, structure):
         deck='REGULAR', hand_types=['RegularLowHand'],
         streets=[_st(0, [0] * 5, 0, 0, P, mn, cap),
                  _st(1, [], 0, 1, P, 2 * mn, cap)], maxn=6, stud=False)
+    t['studdraw'] = dict(   # mixed up/down cards followed by a draw
+        deck='STANDARD', hand_types=['StandardHighHand'],
+        streets=[_st(0, [0, 1, 0, 1, 0], 0, 0, P, mn, cap),
+                 _st(1, [], 0, 1, P, mn, cap),
+                 _st(0, [], 0, 1, P, 2 * mn, cap)], maxn=6, stud=False)
     # random street tuple: first street holes, then a mix of board/hole/draw
     holes = rng.randint(2, 4)
     streets = [_st(0, [rng.random() < 0.3 for _ in range(holes)], 0, 0, P,
